@@ -6,13 +6,20 @@ import glob, json, os, re, subprocess, sys
 HERE = os.path.dirname(os.path.abspath(__file__))
 props = [json.loads(l) for l in open(os.path.join(HERE, 'properties.jsonl'))]
 claimed = {c['property_id'] for c in json.load(open(os.path.join(HERE, 'MANIFEST.json')))['checks']}
-assert not subprocess.run(['git', '-C', '/repo', 'status', '--short'], capture_output=True, text=True).stdout.strip(), '/repo not clean'
+# with REFAC_WT=<dir> a scratch worktree of /repo's HEAD is patched instead of /repo (evidence / replays go to REFAC_OUT)
+REPO = os.environ.get('REFAC_WT', '/repo')
+if REPO != '/repo':
+    subprocess.run(['git', '-C', '/repo', 'worktree', 'add', '--detach', REPO, 'HEAD'], check=True, capture_output=True)
+    os.environ['VERIF_REPO'] = REPO
+    os.environ['VERIF_OUT'] = os.environ.get('REFAC_OUT', '/tmp/refac_out')
+    os.makedirs(os.environ['VERIF_OUT'], exist_ok=True)
+assert not subprocess.run(['git', '-C', REPO, 'status', '--short'], capture_output=True, text=True).stdout.strip(), 'repo not clean'
 rows = []
 for d in sys.argv[1:]:
     for diff in sorted(glob.glob(os.path.join(d, 'refactor_*.diff'))):
         files = re.findall(r'^\+\+\+ b/(.*)$', open(diff).read(), re.M)
         todo = sorted(p['id'] for p in props if p['id'] in claimed and any(f in p['anchors']['files'] for f in files))
-        if subprocess.run(['git', '-C', '/repo', 'apply', diff]).returncode != 0:
+        if subprocess.run(['git', '-C', REPO, 'apply', diff]).returncode != 0:
             rows.append((diff, 'does-not-apply', []))
             continue
         bad = []
@@ -25,10 +32,13 @@ for d in sys.argv[1:]:
                     bad.append((pid, p.returncode, viol[:3]))
                 print(os.path.basename(d), os.path.basename(diff), pid, 'rc', p.returncode, 'notes', notes, viol[:2], flush=True)
         finally:
-            subprocess.run(['git', '-C', '/repo', 'checkout', '--', '.'], check=True)
+            subprocess.run(['git', '-C', REPO, 'checkout', '--', '.'], check=True)
+            subprocess.run(['git', '-C', REPO, 'clean', '-fdq'], check=False)
         rows.append((diff, files, bad))
 print('=== false alarms ===')
 for diff, files, bad in rows:
     if bad:
         print(diff, files, bad)
 print('refactorings:', len(rows), 'with alarms:', sum(1 for r in rows if r[2]))
+if REPO != '/repo':
+    subprocess.run(['git', '-C', '/repo', 'worktree', 'remove', '--force', REPO])
